@@ -109,9 +109,12 @@ CLAIMS['C01'] = {
             '(only non-emptiness and that each member is the wire form of a handler result); A-user for methods, '
             'middlewares (return UNSET or a well-formed Response) and error handlers',
 }
-CLAIMS['C02']['note'] = ('batch level: dispatch() is under contract (C01) with the filter-map structure summarised, but the '
-                         'per-element exactly-once accounting inside a batch is the sequential composition of the proved '
-                         'per-element contract (paper argument); duplicate-id semantics assumed + bounded stand-in')
+CLAIMS['C02']['note'] = ('batch level: the batch branch of dispatch() is a filter over a map; comprehension contracts prove, for '
+                         'a generic element, that the map runs over exactly the accepted batch in order, that each produced '
+                         'element is UNSET for a notification and a Response with the identical id otherwise (chain without user '
+                         'middlewares), and that the filter keeps exactly the non-UNSET elements; that a comprehension is an '
+                         'order-preserving filter-map is the semantics of the VC generator (trusted). Duplicate-id semantics '
+                         'assumed + bounded stand-in; a user middleware may answer anything (A-user)')
 CLAIMS['C03']['note'] = ('Method.bind is an assumed contract (binds(method, params) uninterpreted) until C04; -32700 for '
                          'non-JSON text and the error constructor are proved (dispatch, JsonRpcError.__init__); the '
                          '-32600 clause for invalid documents is covered by the from_json contracts (C06) plus dispatch '
@@ -212,15 +215,26 @@ CLAIMS['C14'] = {
             'failing baseline tests), so nothing about it can even be replayed natively. jsonschema.validate and '
             'BaseValidator.signature are assumed contracts (the latter with the bounded stand-in of C04)',
 }
+CLAIMS['C20'] = {
+    'text': 'PjRpcMocker._match_request and PjRpcMocker.add proved against the abstract view patches(endpoint, version, '
+            'method) = the list stored in the nested maps (tuple keys compared structurally): a patched method is answered by '
+            'the FIRST patch of its queue, which then goes to the back of the queue - or is dropped if it is a `once` patch, '
+            'the emptied queue being unregistered; the reply carries the request id (any int / str, also 0 and ""), the '
+            'configured result / error or the callback value (the last recorded event); the call is recorded: a MagicMock is '
+            'stored under calls[endpoint][(version, method)] and was called with exactly the params (positional / named / '
+            'single); an unpatched method on a patched endpoint gets -32601 with nothing recorded or changed; add() appends '
+            'the new patch last, keeps the earlier ones in order and leaves every other endpoint / method untouched '
+            '(whole-view postcondition). Frame: container contents only, no attribute of any pre-existing object.',
+    'note': 'not under contract: replace(), remove(), reset(), _on_request (pass-through / refusal of unpatched endpoints, '
+            'element-wise batches), start/stop patching. Assumed: the mocking package (MagicMock returns a new callable mock; '
+            'calling it only records), callbacks may raise; representation invariant of the mocker (the outer map, the '
+            'per-endpoint maps and the call records are distinct objects; stored queues are non-empty lists of well-formed '
+            'Match objects) is a precondition - established by add() for what it stores, not proved for replace/remove',
+}
 NOT_CLAIMED = {
     'C17': 'no contract within reach decides it: the documented parameter lists are produced by pydantic (create_model / '
            'model_json_schema) from _build_params_model, whose loop over inspect.Parameter objects needs a parameter-level '
            'inspect model and a dict-building invariant with a quantifier alternation; the installed pydantic is also '
            'incompatible with the validator side of the comparison (see C14). The binding side (which names bind, which are '
            'required) is the assumed inspect model of C04, so the statement would relate two assumed external semantics.',
-    'C20': 'not built: PjRpcMocker keys its patches by (version, method) TUPLES in nested defaultdicts and records calls in '
-           'MagicMock objects; the heap model keys dicts by identity for references (no structural tuple keys) and has no '
-           'MagicMock model. _match_request would be the function to put under contract (round-robin as pop(0)/append on '
-           'the abstract sequence view). One suspect spotted by reading, not verified: `id or match.response_data[...]` '
-           'drops a request id of 0.',
 }
